@@ -1,4 +1,4 @@
-import SC.Proofs.SrcBaseB
+import SC.Proofs.SrcNamesB
 /-!
 The theorems of `Proofs/SrcFuns.lean` for the regenerated `bytcase/bytcase.go` (`Gen.Src.byt`): generated from that file by
 renaming (the wrappers of the two packages have the same go/ssa shape; where they do not, this file stops compiling).
